@@ -50,3 +50,39 @@ pub fn a_job(key: u64) -> Job<u64, u64> {
 pub fn queue_len(w: &WorkerProperties<u64, u64>) -> usize {
     w.message_queue.len()
 }
+
+struct Recorder(std::sync::Mutex<Vec<(String, u64)>>);
+impl DiscardHandler<u64, u64> for Recorder {
+    fn discard(&self, reason: DiscardReason, job: &mut Job<u64, u64>) {
+        self.0.lock().unwrap().push((format!("{reason:?}"), job.msg));
+    }
+}
+
+/// one `enqueue_job(new)` from an explicit pre-state; queue jobs carry msg ids 0..qlen, the new job msg id 100
+/// returns "queue=..;discards=..;running=<n>"
+pub async fn enqueue_once(mode: &str, limit: usize, qlen: usize, busy: bool, worker_dead: bool) -> String {
+    let settings = match mode {
+        "Newest" => WorkerDiscardSettings::Static { limit, mode: DiscardMode::Newest },
+        "Oldest" => WorkerDiscardSettings::Static { limit, mode: DiscardMode::Oldest },
+        _ => WorkerDiscardSettings::None,
+    };
+    let mut w = record(0, "avail", settings).await;
+    let rec = std::sync::Arc::new(Recorder(std::sync::Mutex::new(Vec::new())));
+    w.discard_handler = Some(rec.clone());
+    if worker_dead {
+        w.actor.stop(None);
+        if let Some(h) = w.handle.take() {
+            let _ = h.await;
+        }
+    }
+    for i in 0..qlen {
+        w.message_queue.push_back(job(i as u64, i as u64));
+    }
+    if busy {
+        w.curr_jobs.insert(999, JobOptions::default());
+    }
+    let r = w.enqueue_job(job(100, 100));
+    let q: Vec<String> = w.message_queue.iter().map(|j| j.msg.to_string()).collect();
+    let d: Vec<String> = rec.0.lock().unwrap().iter().map(|(r, m)| format!("{r}:{m}")).collect();
+    format!("queue={};discards={};running={};ok={}", q.join("+"), d.join("+"), w.curr_jobs.len(), r.is_ok() as u8)
+}
